@@ -295,10 +295,18 @@ func (h *harness) signer(b bundleKind, eps []int) (*crypki.Signer, error) {
 	for i, ep := range eps {
 		names[i] = ips[ep]
 	}
-	s, err := crypki.NewSigner(crypki.SignerConfig{
+	conf := crypki.SignerConfig{
 		TLSClientKeyFile: keyFile, TLSClientCertFile: certFile, TLSCACertFiles: h.bundles[b],
 		CrypkiEndpoints: names, CrypkiPort: uint(h.farm.Port), Retries: 1, PerTryTimeout: 2 * time.Second,
-	})
+	}
+	// every other signer is built the way the application builds it: from the signer section of a configuration file
+	var s *crypki.Signer
+	var err error
+	if len(h.signers)%2 == 1 {
+		s, err = casim.SignerViaConfig(h.dir, conf)
+	} else {
+		s, err = crypki.NewSigner(conf)
+	}
 	if err == nil {
 		h.signers[key] = s
 	}
